@@ -15,11 +15,15 @@ for d in sorted(glob.glob('/verif/seeded/C*-*')):
     meta = json.load(open(f'{d}/meta.json'))
     prop = meta['property']
     subprocess.check_call(['git', '-C', wt, 'reset', '-q', '--hard'])
+
+    subprocess.check_call(['git', '-C', wt, 'clean', '-fdq'])
     subprocess.check_call(['git', '-C', wt, 'checkout', '-q', '--detach', head])
     base = 'HEAD'
     r = subprocess.run(['git', '-C', wt, 'apply', '--3way', f'{d}/patch.diff'], capture_output=True, text=True)
     if r.returncode:
         subprocess.check_call(['git', '-C', wt, 'reset', '-q', '--hard'])
+
+        subprocess.check_call(['git', '-C', wt, 'clean', '-fdq'])
         subprocess.check_call(['git', '-C', wt, 'checkout', '-q', '--detach', meta['base_commit']])
         base = meta['base_commit'][:7]
         r = subprocess.run(['git', '-C', wt, 'apply', f'{d}/patch.diff'], capture_output=True, text=True)
@@ -30,6 +34,8 @@ for d in sorted(glob.glob('/verif/seeded/C*-*')):
     viol = sorted({o.rule for o in (ctx.obligations if ctx else []) if o.status == 'violated'})
     # ignore rules that are violated on the base tree as well (known findings / defects fixed later)
     subprocess.check_call(['git', '-C', wt, 'reset', '-q', '--hard'])
+
+    subprocess.check_call(['git', '-C', wt, 'clean', '-fdq'])
     code0, ctx0, _ = check(prop, 'quick', 0, write=False)
     base_viol = {o.construct for o in (ctx0.obligations if ctx0 else []) if o.status == 'violated'}
     new = [o for o in (ctx.obligations if ctx else []) if o.status == 'violated' and o.construct not in base_viol]
@@ -38,6 +44,8 @@ for d in sorted(glob.glob('/verif/seeded/C*-*')):
     meta['static_check'] = {'at': head[:7], 'applied_on': base, 'verdict': verdict, 'rules': sorted({o.rule for o in new}), 'first': new[0].detail[:300] if new else None}
     json.dump(meta, open(f'{d}/meta.json', 'w'), indent=1)
 subprocess.check_call(['git', '-C', wt, 'reset', '-q', '--hard'])
+
+subprocess.check_call(['git', '-C', wt, 'clean', '-fdq'])
 with open('/verif/seeded/MATRIX.md', 'w') as h:
     h.write(f'# Seeded changes vs static checks (at /repo {head[:7]})\n\n| seeded | property | verdict | rules that fire | change |\n|---|---|---|---|---|\n')
     for r in rows:
